@@ -501,6 +501,36 @@ pub fn cells(tier: Tier) -> Vec<CellPlan> {
         c.oracles = Oracles { c10: true, c02: true, ..Default::default() };
         v.push(plan(c, 0, 4.0));
     }
+    // A related group with one member hidden from the client (blacklist): the visible members
+    // still travel together, the hidden one not at all.
+    for &max in &[26usize, 1200] {
+        let mut c = cells::base(&format!("graph-hidden-{max}"), "C10");
+        c.cfg.with_child = true;
+        c.cfg.sync_rel = true;
+        c.cfg.vis = Vis::Blacklist;
+        c.cfg.clients = vec![max];
+        // (the hidden entity is only ever a leaf: a reference to an entity the client cannot see
+        // creates a placeholder by design, which is outside the property)
+        c.init = vec![Op::Spawn(0, cells::AB), Op::Spawn(1, cells::AB), Op::Spawn(2, cells::AB), Op::Spawn(3, cells::AB), Op::Vis(0, 3, false)];
+        c.alphabet = vec![
+            Op::Nop,
+            Op::SetParent(1, 0),
+            Op::SetParent(2, 1),
+            Op::SetParent(3, 2),
+            Op::SetParent(3, 0),
+            Op::SetParent(2, 0),
+            Op::ClearParent(3),
+            Op::ClearParent(2),
+            Op::Vis(0, 3, true),
+            Op::Vis(0, 3, false),
+        ];
+        c.rounds = if q { 3 } else { 4 };
+        c.tick_choice = false;
+        c.env = Env::perfect();
+        c.split_stage = true;
+        c.oracles = Oracles { c10: true, c02: true, c08: true, c01: true, ..Default::default() };
+        v.push(plan(c, 0, 2.0));
+    }
     v
 }
 
